@@ -88,6 +88,39 @@ class C16(Prop):
     def classify(self, line):
         return ' '.join(line.split(' ')[:2])
 
+    def group_check(self, cases, impl):
+        """block comments, on the implementation alone: a text that starts with `\\(` + whitespace is one comment up to the first
+        `\\)` that stands between whitespace (or before the end of the text), the whitespace after it included; what follows is
+        lexed as if the comment were not there (here: the literal 7 is read)"""
+        import re
+        fails, n = [], 0
+        WSP = ' \t\n\r\x0c'
+        for c, o in zip(cases, impl):
+            if not c.startswith('lex all 5c28'):
+                continue
+            src = bytes.fromhex(c.split(' ')[2]).decode('utf-8')
+            if len(src) < 3 or src[2] not in WSP:
+                continue
+            n += 1
+            m = re.search(r'[ \t\n\r\x0c]\\\)(?=[ \t\n\r\x0c]|$)', src[2:])
+            toks = o.split(' ')
+            bl = lambda i: len(src[:i].encode('utf-8'))
+            if m is None:
+                if not toks[0].startswith('EUntermComment'):
+                    fails.append(('case: %s\nsource: %r\ntokens: %s' % (c, src, o), 'a block comment without terminator must be an error'))
+                continue
+            end = 2 + m.end() + (1 if 2 + m.end() < len(src) else 0)
+            want = 'C:0-%d' % bl(end)
+            if toks[0] != want:
+                fails.append(('case: %s\nsource: %r\ntokens: %s\nexpected-first-token: %s' % (c, src, o, want),
+                              'the block comment does not end at its terminator'))
+                continue
+            rest = src[end:]
+            if rest.startswith('7') and (len(rest) == 1 or rest[1] in WSP):
+                if len(toks) < 2 or toks[1] != 'LI7:%d-%d' % (bl(end), bl(end) + 1):
+                    fails.append(('case: %s\nsource: %r\ntokens: %s' % (c, src, o), 'the literal after the comment is not read'))
+        return n, fails, [], dict(block_comment_texts=n)
+
     def canon_impl(self, s):
         return s.rstrip()
 
@@ -153,6 +186,16 @@ class C16(Prop):
                 src = src[:i] + rng.choice(ODD + WS) + src[i + rng.randint(0, 2):]
             add(src)
         add('')
+        # block comments: every short body over the characters that matter for finding the terminator, every separator, then a literal
+        import itertools
+        btoks = ['a', '\\', '\\)', '\\(', '\\)x', 'x\\)', 'é']
+        for k in range(0, 4 if not thorough else 5):
+            for body in itertools.product(btoks, repeat=k):
+                for sep in (' ', '\n', '  '):
+                    if k == 3 and sep != ' ' and rng.random() < 0.7:
+                        continue
+                    for tail in (' 7', '\n7 8', '', ' '):
+                        add('\\(' + sep + ''.join(t + sep for t in body) + '\\)' + tail)
         # token_location
         fill = ['a', 'bc', ' ', '\t', '\n', '\r\n', '\r', 'é', '日', '\U0001f600', '\n\n', ' x ']
         for _ in range(1500 if not thorough else 30000):
